@@ -114,6 +114,9 @@ func metricsOnly(m ...any) bool          { return true }
 func hasKey[K comparable, V any](m map[K]V, k K) bool { _, ok := m[k]; return ok }
 func cur[T any](x T) T                                 { return x }
 
+// atentry(x), in a loop invariant: the value of x when the loop was entered.
+func atentry[T any](x T) T { return x }
+
 // Deadline discipline (C13): see DESIGN.md s9 C13.
 func ctxChildOf(c, parent any) bool                      { return true }
 func backoffBoundTo(b, ctx any) bool                     { return true }
@@ -133,7 +136,7 @@ func bufBytes(b interface{ Bytes() []byte }) []byte { return b.Bytes() }
 func window(s []byte, t []byte, lo, hi int) bool { return aliases(s, t, lo, hi) }
 
 // isnew(x): the backing array of x was allocated by the function under contract.
-func isnew(x []byte) bool { return true }
+func isnew[T any](x []T) bool { return true }
 
 // isnewobj(p): p points to an object allocated during the call.
 func isnewobj[T any](p *T) bool { return p != nil }
